@@ -87,3 +87,12 @@ Proof.
   - rewrite scanned_eqb_spec. split; congruence.
   - rewrite serr_eqb_spec. split; congruence.
 Qed.
+
+Lemma nfl_eqb_spec a b : nfl_eqb a b = true <-> a = b.
+Proof. apply list_eqb_spec. apply pair_eqb_spec; exact N.eqb_eq. Qed.
+Lemma nfset_eqb_spec a b : nfset_eqb a b = true <-> a = b.
+Proof.
+  destruct a as [a1 a2 a3], b as [b1 b2 b3]. unfold nfset_eqb. cbn [n_s n_o n_i].
+  rewrite !andb_true_iff, !nfl_eqb_spec.
+  split; [intros [[-> ->] ->]; reflexivity | intros E; inversion E; auto].
+Qed.
